@@ -90,3 +90,64 @@ package testscript
 //@ func waitOrStop
 //@   trusted
 //@   pure
+
+// ---- C16: UpdateScripts ----
+//@ property C16: (*TestScript).doCmdCmp, (*TestScript).Check, (*TestScript).MkAbs, (*TestScript).applyScriptUpdates
+
+//@ func (*TestScript).Check
+//@   requires ts != nil
+//@   pure
+//@   ensures err == nil
+
+//@ func (*TestScript).MkAbs
+//@   requires ts != nil
+//@   pure
+
+//@ func (*TestScript).ReadFile
+//@   trusted
+//@   requires ts != nil
+//@   pure
+
+//@ func (*TestScript).Logf
+//@   trusted
+//@   requires ts != nil
+//@   pure
+
+//@ extern github.com/rogpeppe/go-internal/diff.Diff(oldName, old, newName, new) (r)
+//@   pure
+
+// doCmdCmp records an update only for a plain (not cmpenv, not negated) comparison
+// that fails against a file of the script archive, under UpdateScripts: the entry
+// name recorded is the archive name of file2 and the content is the actual text;
+// in every other case the recorded updates are left exactly as they were.
+//@ func (*TestScript).doCmdCmp
+//@   requires ts != nil && ts.envMap != nil && ts.scriptUpdates != nil && ts.scriptFiles != ts.scriptUpdates && len(args) == 2
+//@   at call (*testscript.TestScript).MkAbs#1: bind abs2 = result
+//@   at call (*testscript.TestScript).ReadFile#1: bind text1G = result
+//@   modifies Md_Int_Str, Mv_Int_Str, new bytes
+//@   ensures forall k int {mapkeys(ts.scriptUpdates)[k]} {mapvals(ts.scriptUpdates)[k]} :: (mapkeys(ts.scriptUpdates)[k] != old(mapkeys(ts.scriptUpdates))[k] || mapvals(ts.scriptUpdates)[k] != old(mapvals(ts.scriptUpdates))[k]) ==> (!neg && !env && ts.params.UpdateScripts && mapdom(ts.scriptFiles, abs2) && k == sid(ts.scriptFiles[abs2]) && sameStr(mapvals(ts.scriptUpdates)[k], text1G))
+//@   ensures forall r int {Md_Int_Str[r]} {Mv_Int_Str[r]} :: r != ts.scriptUpdates ==> Md_Int_Str[r] == old(Md_Int_Str)[r] && Mv_Int_Str[r] == old(Mv_Int_Str)[r]
+
+//@ extern (github.com/rogpeppe/go-internal/testscript.T).Fatal(t, args)
+//@   noreturn
+//@ extern os.WriteFile(name, data, perm) (err)
+//@   modifies fsExists, fsData, fsSize, fsBytes, fsWrites
+//@ extern github.com/rogpeppe/go-internal/txtar.Format(a) (r)
+//@   modifies new bytes
+
+// applyScriptUpdates: the number, order and names of the archive's entries are
+// unchanged; an entry whose name has no recorded update keeps its data; the script
+// file is rewritten once, with the formatted archive (the comment is not touched).
+//@ func (*TestScript).applyScriptUpdates
+//@   requires ts != nil && ts.archive != nil && ts.scriptUpdates != nil
+//@   allowpanic
+//@   modifies H_S_txtar_File, bytes, fsExists, fsData, fsSize, fsBytes, fsWrites
+//@   at call os.WriteFile#1: requires sameStr(name, ts.file)
+//@   at call txtar.Format#1: requires a == ts.archive
+//@   loop 1: invariant sameSlice(ts.archive.Files, old(ts.archive.Files))
+//@   loop 1: invariant forall K {at(ts.archive.Files,K)} :: lo(ts.archive.Files) <= K && K < hi(ts.archive.Files) ==> sameStr(at(ts.archive.Files,K).Name, old(at(ts.archive.Files,K)).Name) && (!mapkeys(ts.scriptUpdates)[at(ts.archive.Files,K).Name] ==> sameSlice(at(ts.archive.Files,K).Data, old(at(ts.archive.Files,K)).Data))
+//@   loop 2: invariant -1 <= rangeindex
+//@   loop 2: invariant sameSlice(ts.archive.Files, old(ts.archive.Files))
+//@   loop 2: invariant forall K {at(ts.archive.Files,K)} :: lo(ts.archive.Files) <= K && K < hi(ts.archive.Files) ==> sameStr(at(ts.archive.Files,K).Name, old(at(ts.archive.Files,K)).Name) && (!mapkeys(ts.scriptUpdates)[at(ts.archive.Files,K).Name] ==> sameSlice(at(ts.archive.Files,K).Data, old(at(ts.archive.Files,K)).Data))
+//@   ensures sameSlice(ts.archive.Files, old(ts.archive.Files))
+//@   ensures forall K {at(ts.archive.Files,K)} :: lo(ts.archive.Files) <= K && K < hi(ts.archive.Files) ==> sameStr(at(ts.archive.Files,K).Name, old(at(ts.archive.Files,K)).Name) && (!mapkeys(ts.scriptUpdates)[at(ts.archive.Files,K).Name] ==> sameSlice(at(ts.archive.Files,K).Data, old(at(ts.archive.Files,K)).Data))
